@@ -127,6 +127,9 @@ def generate(ctx):
                     op["tok"] = [t if t in DELTAS_ON else rng.choice(["q1", "q2", "q3"]) for t in op["tok"]]
                     op["k"] = [min(k, max(n - 2, 0)) if t not in DELTAS_ON else k for k, t in zip(op["k"], op["tok"])]
                 op["inplace"] = rng.random() < 0.5
+                # the observation's own element type (spikes come as bool / integers, other code may hand in float64): the
+                # documented conversion to the record's type happens after extrapolation
+                op["obs_as"] = rng.choice([None, None, "int64", "other_float", "int32"])
             else:
                 op["op"] = rng.choice(["select_oor", "insert_oor"])
                 op["mode"] = rng.choice(["scalar", "tensor"])
@@ -508,6 +511,11 @@ def _do_insert(ctx, rt, model, op, desc, elems, tdt, dtp, ctr):
     ctr[0] += 1
     x = (ctr[0] * 32 + np.arange(numel, dtype=np.float64)).reshape(shape)
     xt = torch.from_numpy(x).to(dtp)
+    if op.get("obs_as"):
+        odt = {"int64": torch.int64, "int32": torch.int32,
+               "other_float": torch.float32 if dtp == torch.float64 else torch.float64}[op["obs_as"]]
+        xt = torch.from_numpy(x).to(odt)          # the values are whole numbers: exact in every one of these types
+        ctx.count("inserts_of_observations_in_another_dtype")
     spy = _Spy()
     pair = None
     if op["extrap"] == "spy":
@@ -529,6 +537,8 @@ def _do_insert(ctx, rt, model, op, desc, elems, tdt, dtp, ctr):
         rt.insert(xt, torch.from_numpy(tarr).to(tdt), fn, tolerance=tol, offset=off, inplace=op["inplace"],
                   extrap_kwargs=kw)
     exact = dtp == torch.float64
+    if rt.value.dtype != dtp:
+        return ("insert.storage_dtype_changed", f"storage was {dtp}, is {rt.value.dtype} after inserting a {xt.dtype} observation")
     # spy argument check
     if op["extrap"] == "spy" and any(not c["ongrid"] for c in per):
         calls = [c for c in spy.calls if c[0] == "extrap"]
